@@ -145,7 +145,7 @@ namespace _tuple {
 
 	template<typename F, typename... Args, size_t... I>
 	auto apply(F functor, tuple<Args...> &&args, std::index_sequence<I...>) {
-		return functor(std::move(args.template get<I>())...);
+		return functor(std::forward<Args>(args.template get<I>())...);
 	}
 
 	// Turns a set of tuple-like types into a tuple
@@ -213,6 +213,18 @@ namespace _tuple {
 			typename std::remove_reference<Tuple>::type>::value> type;
 	};
 
+	// Accesses the n-th element with the value category of the tuple itself (like std::get
+	// on a forwarded std::tuple): lvalue tuples and reference members yield lvalues.
+	template<size_t n, typename Tuple>
+	constexpr decltype(auto) forward_get(Tuple &&tp) {
+		using elem = typename std::tuple_element<n,
+				std::remove_cv_t<std::remove_reference_t<Tuple>>>::type;
+		if constexpr (std::is_lvalue_reference_v<Tuple>)
+			return tp.template get<n>();
+		else
+			return std::forward<elem>(tp.template get<n>());
+	}
+
 	// Performs the actual concatenation for tuple_cat
 	template<typename Ret, typename Indices, typename... Tuples>
 	struct tuple_concater;
@@ -225,7 +237,7 @@ namespace _tuple {
 			typedef tuple_concater<Ret, index, Tuples...> next;
 			return next::do_concat(std::forward<Tuples>(tps)...,
 					std::forward<Res>(res)...,
-					std::move(tp.template get<Indices>())...);
+					forward_get<Indices>(std::forward<Tuple>(tp))...);
 		}
 	};
 
